@@ -55,6 +55,46 @@ def scripted_case(tc: str, end_step, end_o: str, cleanup_o: str, atc_exit: int, 
     return ''.join(parts)
 
 
+def case_from_log(n, st, log, atc_exit):
+    """A behaviour of PhaseExec / Exactly (shape n, status st, log with the outcome of every step) as test-case text
+    for the stub main program; None if it cannot be scripted through text (an exe-input fault needs a setup
+    instruction to install the scripted stdin)."""
+    script = {}
+    for e in log:
+        if e[3] != 'ok':
+            script.setdefault((e[1], e[2]), {})[e[0]] = e[3]
+    act = dict(script.get(('act', 1), {}))
+    exeinput = act.pop('exeinput', None)
+    if exeinput and n['setup'] == 0:
+        return None
+    conf = []
+    if act:
+        conf.append('verif-actor %s exit=%d' % (' '.join('%s=%s' % kv for kv in sorted(act.items())), atc_exit))
+    for i in range(1, n['conf'] + 1):
+        conf.append('verif-stub %d%s' % (i, ''.join(' %s=%s' % kv for kv in sorted(script.get(('conf', i), {}).items()))))
+    if st != 'PASS':
+        conf.insert(0, 'status = %s' % st)
+
+    def lines(ph):
+        out = []
+        for i in range(1, n[ph] + 1):
+            sc = dict(script.get((ph, i), {}))
+            if exeinput and ph == 'setup' and i == 1:
+                sc['stdin'] = exeinput
+            out.append('verif-stub %d%s' % (i, ''.join(' %s=%s' % kv for kv in sorted(sc.items()))))
+        return out
+
+    parts = []
+    if conf:
+        parts.append('[conf]\n' + '\n'.join(conf) + '\n')
+    for ph in ('setup', 'act', 'ba', 'assert', 'cleanup'):
+        if ph == 'act':
+            parts.append('[act]\n' + ('stub action\n' if act else atc_line(atc_exit) + '\n'))
+        elif n[ph]:
+            parts.append('[%s]\n%s\n' % (PHASE_NAME[ph], '\n'.join(lines(ph))))
+    return ''.join(parts)
+
+
 VERDICTS = ('PASS', 'FAIL', 'XFAIL', 'XPASS', 'SKIPPED', 'VALIDATION_ERROR', 'HARD_ERROR', 'INTERNAL_ERROR',
             'SYNTAX_ERROR', 'FILE_ACCESS_ERROR', 'PRE_PROCESS_ERROR')
 SDS_LAYOUT = ('act', 'tmp', 'result', 'internal')
